@@ -171,6 +171,60 @@ def gen(repo):
         raise TranslationError('_tosequence: a wrong length must raise ValueError')
     expect_same(body[5], 'return seq')
 
+    # ---- DataMatrix.__lshift__: the length of the result and the two slice bounds ------------------
+    fn = find_function(dmod, 'DataMatrix.__lshift__')
+    body = body_nodoc(fn)
+    if len(body) != 6:
+        raise TranslationError('__lshift__: %d statements, expected 6' % len(body))
+    expect_same(body[0], 'if isinstance(other, dict):\n    other = DataMatrix()._fromdict(other)\nelif isinstance(other, Row):\n    other = other.as_slice')
+    a0 = body[1]
+    if not (isinstance(a0, ast.Assign) and ast.unparse(a0.targets[0]) == 'dm' and isinstance(a0.value, ast.Call)
+            and ast.unparse(a0.value.func) == 'DataMatrix' and len(a0.value.args) == 1 and not a0.value.keywords):
+        raise TranslationError('__lshift__: result allocation changed: %s' % ast.unparse(a0))
+    env = Env([('len(self)', 'len_self', 'Z'), ('len(other)', 'len_other', 'Z')])
+    out.append('(* DataMatrix.__lshift__: rows of the result, where the left cells stop and where the right cells start *)\n'
+               'Definition k_concat_len (len_self len_other : Z) : Z := %s.\n' % tr_typed(a0.value.args[0], env, 'Z'))
+    l1, l2, l3 = body[2], body[3], body[4]
+    if not (isinstance(l1, ast.For) and ast.unparse(l1.iter) == 'self._cols.items()' and ast.unparse(l1.target) == '(name, col)'):
+        raise TranslationError('__lshift__: first loop header')
+    st = [ast.unparse(x) for x in l1.body]
+    if len(st) != 4 or st[1] != 'dm[name]._typechecking = False' or st[3] != 'dm[name]._datamatrix = dm':
+        raise TranslationError('__lshift__: first loop body changed: %r' % (st,))
+    expect_same(l1.body[0], "if hasattr(col, 'depth'):\n    dm[name] = col.__class__(dm, col.depth, col.defaultnan)\nelse:\n    dm[name] = col.__class__")
+    fill = l1.body[2]
+    try:
+        assert isinstance(fill, ast.Assign) and ast.unparse(fill.value) == 'self[name]'
+        sub = fill.targets[0]
+        assert ast.unparse(sub.value) == 'dm[name]' and isinstance(sub.slice, ast.Slice)
+        assert sub.slice.lower is None and sub.slice.step is None
+        out.append('Definition k_concat_left_stop (len_self : Z) : Z := %s.\n' % tr_typed(sub.slice.upper, env, 'Z'))
+    except (AssertionError, AttributeError):
+        raise TranslationError('__lshift__: left fill changed: %s' % ast.unparse(fill))
+    if not (isinstance(l2, ast.For) and ast.unparse(l2.iter) == 'other._cols.items()' and ast.unparse(l2.target) == '(name, col)'):
+        raise TranslationError('__lshift__: second loop header')
+    if len(l2.body) != 3:
+        raise TranslationError('__lshift__: second loop body has %d statements' % len(l2.body))
+    br = l2.body[0]
+    if not (isinstance(br, ast.If) and ast.unparse(br.test) == 'name not in dm._cols'):
+        raise TranslationError('__lshift__: membership test of the second loop')
+    stn = [ast.unparse(x) for x in br.body]
+    if len(stn) != 2 or stn[1] != 'dm[name]._typechecking = False':
+        raise TranslationError('__lshift__: new-column branch changed')
+    tychk = br.orelse[0]
+    expect_same(tychk, "if type(dm[name]) != type(other[name]):\n    raise TypeError(u'Non-matching type for column %s' % name)")
+    fill2 = l2.body[1]
+    try:
+        assert isinstance(fill2, ast.Assign) and ast.unparse(fill2.value) == 'other[name]'
+        sub = fill2.targets[0]
+        assert ast.unparse(sub.value) == 'dm[name]' and isinstance(sub.slice, ast.Slice)
+        assert sub.slice.upper is None and sub.slice.step is None
+        out.append('Definition k_concat_right_start (len_self : Z) : Z := %s.\n' % tr_typed(sub.slice.lower, env, 'Z'))
+    except (AssertionError, AttributeError):
+        raise TranslationError('__lshift__: right fill changed: %s' % ast.unparse(fill2))
+    expect_same(l2.body[2], 'dm[name]._datamatrix = dm')
+    expect_same(l3, 'for colname, col in dm.columns:\n    col._typechecking = True')
+    expect_same(body[5], 'return dm')
+
     # ---- Index: cache bookkeeping -----------------------------------------------------------
     fn = find_function(imod, 'Index.__init__')
     body = body_nodoc(fn)
